@@ -522,7 +522,25 @@ fn main() {
     };
 
     // (a) constructed values
-    let lps = all_strings(&LP_ALPHABET, l_novia);
+    let mut lps = all_strings(&LP_ALPHABET, l_novia);
+    // localparts that begin with, end with or consist of a sigil (`@@x:hs`, `!!x:hs`, `$$x` are
+    // accepted identifiers): a formatter or parser that adds / strips sigils by pattern rather than
+    // by position shows up here
+    for sigil in ["@", "!", "$", "#"] {
+        for other in ["@", "!", "$", "#", "a"] {
+            for lp in [
+                sigil.to_owned(),
+                format!("{sigil}{other}"),
+                format!("{other}{sigil}"),
+                format!("{sigil}{other}{sigil}"),
+                format!("{sigil}{sigil}{other}"),
+            ] {
+                if !lps.contains(&lp) {
+                    lps.push(lp);
+                }
+            }
+        }
+    }
     let rep = all_strings(&LP_ALPHABET, 1);
     par_shards(&report, lps.len(), |i, t| {
         let lp = &lps[i];
